@@ -5,7 +5,7 @@ from lib import cs, cb, ccirc, cnat
 ID = "C13"
 RUN_MODULE = "Run.Run_C13"
 GEN_FILES = []
-RULE = ("every (generator, width, carry flags) with adder w<=4 (quick 3), mux w<=9, popcount w<=6 (quick 4), width 0 included "
+RULE = ("every (generator, width, carry flags) with adder w<=4 (quick 3), mux w<=8 (quick 6), popcount w<=6 (quick 4), width 0 included "
         "(error branches of mux/popcount), half/full adder; the returned graph is compared with the model and judged by the Coq "
         "oracle on ALL input vectors; helper calls: clog2 on -4..70, 2^k-1, 2^k, 2^k+1 (k<=70) and random 80-bit numbers, "
         "int_to_bin/bin_to_int on i<2^w, i>=2^w (no truncation), w=0, both endiannesses, random tuples incl. the empty one; "
@@ -45,9 +45,7 @@ def generate(rng, tier):
         for ci in (False, True):
             for co in (False, True):
                 out.append({"fn": "adder", "w": w, "ci": ci, "co": co})
-    if q:
-        out.append({"fn": "adder", "w": 4, "ci": True, "co": True})
-    out += [{"fn": "mux", "w": w} for w in range(0, 9 if q else 10)]
+    out += [{"fn": "mux", "w": w} for w in range(0, 7 if q else 9)]
     out += [{"fn": "popcount", "w": w} for w in range(0, 5 if q else 7)]
     if not q:
         # graph equality at large widths + simulation pre-screen
